@@ -523,6 +523,19 @@ def netmsg_rt(d, mt, lists, nents, infolens):
         raise Violation("msg-param-restored", mt=mt, attr=bad)
     # the header of the frame stays attached to the decoded message
     check_fields(z, er, prio, dshape, sshape, hops, mt, None, None, "msg-header-restored")
+    # a second frame of the same type, decoded through another default-constructed object as the stack does on
+    # receive, restores ITS parameters and leaves the first message as it was (no state shared between messages)
+    q2 = draw_params(d, mt, lists, nents, infolens)
+    n3 = N.NPDU()
+    n3.decode(PDU(R.npci_octets(er, prio, dshape, sshape, hops, mt, None) + ref_body(mt, q2)))
+    z2 = k()
+    z2.decode(n3)
+    bad = params_mismatch(mt, z2, q2)
+    if bad is not None:
+        raise Violation("second-message-param-restored", mt=mt, attr=bad)
+    bad = params_mismatch(mt, z, q)
+    if bad is not None:
+        raise Violation("first-message-changed-by-second", mt=mt, attr=bad)
     d.reach()
 
 
